@@ -116,6 +116,62 @@ def check_eat_data_resets(P, R, rid):
     return f
 
 
+def check_sentinels(P, R, rid):
+    he = P.cls(f'{MP}:HeadersEaeter')
+    bmk = P.cls(f'{MP}:BodyMarkuper')
+    # ---- d: sentinel identity
+    sentinel_funcs = []
+    for c in (he, bmk, P.cls(f'{MP}:MatchTail')):
+        for m in c.methods.values():
+            rets = [n for n in walk_shallow(m.node) if isinstance(n, ast.Return)]
+            bare = [r for r in rets if r.value is None or is_const(r.value, None)]
+            valued = [r for r in rets if r.value is not None and not is_const(r.value, None)]
+            falls = bool([p for (p, lab) in m.cfg.exit.pred if not (p.kind == 'stmt' and isinstance(p.ast, ast.Return))])
+            if valued and (bare or falls):
+                sentinel_funcs.append(m.name)
+    R.require(len(sentinel_funcs) >= 6, f'only {len(sentinel_funcs)} Optional-position functions inferred: {sentinel_funcs}')
+    n_tests = 0
+    for c in (he, bmk):
+        for m in c.methods.values():
+            g2, rd2 = m.cfg, m.rd
+            for n in g2.nodes:
+                if n.kind != 'test':
+                    continue
+                t, neg = strip_not(n.ast)
+                names = []
+                if isinstance(t, ast.Name):
+                    names = [(t.id, 'truthiness')]
+                else:
+                    cp = compare_parts(t)
+                    if cp and isinstance(cp[0], ast.Name) and is_const(cp[2], None):
+                        names = [(cp[0].id, 'identity' if cp[1] in (ast.Is, ast.IsNot) else 'equality')]
+                for (nm, how) in names:
+                    defs = rd2.at(n, nm)
+                    from_sentinel = False
+                    for d in defs:
+                        v = d.value
+                        if isinstance(v, ast.Call):
+                            callee = call_attr(v)
+                            target = (T.resolved_callee(m, v) or '').split('.')[-1]
+                            if callee in sentinel_funcs or target in sentinel_funcs or target in ('cur_meth', 'eat_meth') or callee in ('eat_meth',):
+                                from_sentinel = True
+                            elif isinstance(v.func, ast.Name) and rd2.is_local(v.func.id):
+                                for n3 in g2.nodes:
+                                    for d3 in rd2.gen.get(n3, []):
+                                        if d3.name == v.func.id and d3.value is not None and isinstance(d3.value, ast.Attribute) \
+                                                and (d3.value.attr in sentinel_funcs or d3.value.attr in ('cur_meth', 'eat_meth', '_eat_headers')):
+                                            from_sentinel = True
+                    if from_sentinel:
+                        n_tests += 1
+                        ok = how == 'identity'
+                        R.ob(rid, m, n.ast, ok, text=f'{short(n.ast)}  [{nm} is a position or None]', detail='' if ok else
+                             f'the result of a position-returning eater is tested by {how}: position 0 (or a negative offset at the very '
+                             f'start of a chunk) is taken for "need more data"',
+                             why='whether a delimiter starts exactly at a chunk boundary must not matter')
+    R.require(n_tests >= 4, f'{n_tests} sentinel tests found (5 on the pinned tree)')
+
+
+
 def check_extra_state(P, R, rid_e, rid_c):
     bmk = P.cls(f'{MP}:BodyMarkuper')
     ed = P.func(f'{MP}:BodyMarkuper._eat_data')
@@ -319,56 +375,7 @@ def check(P, R):
     R.ob('C06.c', im, hs[0] if hs else im.node, ok, text='closing delimiter: self.stopped = True', detail='' if ok else
          'seeing the closing delimiter is not remembered for later chunks')
 
-    # ---- d: sentinel identity
-    sentinel_funcs = []
-    for c in (he, bmk, P.cls(f'{MP}:MatchTail')):
-        for m in c.methods.values():
-            rets = [n for n in walk_shallow(m.node) if isinstance(n, ast.Return)]
-            bare = [r for r in rets if r.value is None or is_const(r.value, None)]
-            valued = [r for r in rets if r.value is not None and not is_const(r.value, None)]
-            falls = bool([p for (p, lab) in m.cfg.exit.pred if not (p.kind == 'stmt' and isinstance(p.ast, ast.Return))])
-            if valued and (bare or falls):
-                sentinel_funcs.append(m.name)
-    R.require(len(sentinel_funcs) >= 6, f'only {len(sentinel_funcs)} Optional-position functions inferred: {sentinel_funcs}')
-    n_tests = 0
-    for c in (he, bmk):
-        for m in c.methods.values():
-            g2, rd2 = m.cfg, m.rd
-            for n in g2.nodes:
-                if n.kind != 'test':
-                    continue
-                t, neg = strip_not(n.ast)
-                names = []
-                if isinstance(t, ast.Name):
-                    names = [(t.id, 'truthiness')]
-                else:
-                    cp = compare_parts(t)
-                    if cp and isinstance(cp[0], ast.Name) and is_const(cp[2], None):
-                        names = [(cp[0].id, 'identity' if cp[1] in (ast.Is, ast.IsNot) else 'equality')]
-                for (nm, how) in names:
-                    defs = rd2.at(n, nm)
-                    from_sentinel = False
-                    for d in defs:
-                        v = d.value
-                        if isinstance(v, ast.Call):
-                            callee = call_attr(v)
-                            target = (T.resolved_callee(m, v) or '').split('.')[-1]
-                            if callee in sentinel_funcs or target in sentinel_funcs or target in ('cur_meth', 'eat_meth') or callee in ('eat_meth',):
-                                from_sentinel = True
-                            elif isinstance(v.func, ast.Name) and rd2.is_local(v.func.id):
-                                for n3 in g2.nodes:
-                                    for d3 in rd2.gen.get(n3, []):
-                                        if d3.name == v.func.id and d3.value is not None and isinstance(d3.value, ast.Attribute) \
-                                                and (d3.value.attr in sentinel_funcs or d3.value.attr in ('cur_meth', 'eat_meth', '_eat_headers')):
-                                            from_sentinel = True
-                    if from_sentinel:
-                        n_tests += 1
-                        ok = how == 'identity'
-                        R.ob('C06.d', m, n.ast, ok, text=f'{short(n.ast)}  [{nm} is a position or None]', detail='' if ok else
-                             f'the result of a position-returning eater is tested by {how}: position 0 (or a negative offset at the very '
-                             f'start of a chunk) is taken for "need more data"',
-                             why='whether a delimiter starts exactly at a chunk boundary must not matter')
-    R.require(n_tests >= 4, f'{n_tests} sentinel tests found (5 on the pinned tree)')
+    check_sentinels(P, R, 'C06.d')
 
     # ---- e
     ed = P.func(f'{MP}:BodyMarkuper._eat_data')
